@@ -43,7 +43,7 @@ fn note(hash: Option<u64>) {
 
 fn report(prop: &str, engine: &str, case: serde_json::Value, v: &Violation, avoid: Vec<String>) -> ! {
     let f = Found { property: prop.to_string(), message: format!("[{} at step {}] {} (found by libFuzzer)", v.prop, v.step, v.msg), engine: engine.to_string(), case, trace: vec![], avoid };
-    let dir = std::path::Path::new(crate::sup::VERIF).join("replays");
+    let dir = std::path::Path::new(&crate::sup::verif_root()).join("replays");
     let _ = std::fs::create_dir_all(&dir);
     use std::hash::{Hash, Hasher};
     let mut h = std::collections::hash_map::DefaultHasher::new();
